@@ -126,7 +126,28 @@ SimPropose ==
     \/ \E r \in OneMem : \E q \in Parties : NewMemberPropose(q, r)
     \/ \E p \in Mem : RandomElement(1..(4 + Z)) = 1 /\ ProposeReinit(p)
 
+\* q holds the secrets of the epoch app a was sent in: its current epoch, or a prior epoch it still has a record of
+Readable(q, a) ==
+    \/ apps[a].ks = grp[q].ks
+    \/ \E i \in 1..Len(repo[q].ins) : repo[q].ins[i].ks = apps[a].ks
+    \/ \E i \in 1..Len(repo[q].upd) : repo[q].upd[i].ks = apps[a].ks
+    \/ \E i \in 1..Len(store[q].epochs) : store[q].epochs[i].ks = apps[a].ks
+\* Churn around late messages: a member that has sent application data in the current epoch is removed; a party
+\* whose messages the committer can still read comes back, after another party that takes the first free leaf
+\* (so the returning sender lands on another leaf than the one its late messages name)
+Unused(q) == {i \in 1..Len(kps) : ~kps[i].used /\ kps[i].bad = "" /\ kps[i].owner = q}
+SimChurn ==
+    \/ \E p \in Mem : \E l \in {l \in OccupiedLeaves(grp[p].tree) \ {grp[p].leaf} :
+                                    \E a \in 1..Len(apps) : apps[a].ks = grp[p].ks /\ apps[a].byLeaf = l} :
+            grp[p].pend = 0 /\ Commit(p, <<[kind |-> "rem", ref |-> 0, by |-> grp[p].leaf, target |-> l]>>, FALSE)
+    \/ \E p \in Mem : \E s \in {s \in Parties \ Members(grp[p].tree) : Unused(s) # {} /\ \E a \in 1..Len(apps) : apps[a].by = s /\ Readable(p, a)} :
+            \E n \in {n \in Parties \ (Members(grp[p].tree) \cup {s}) : Unused(n) # {}} :
+                grp[p].pend = 0 /\
+                Commit(p, <<[kind |-> "add", ref |-> 0, by |-> grp[p].leaf, kp |-> CHOOSE i \in Unused(n) : TRUE],
+                            [kind |-> "add", ref |-> 0, by |-> grp[p].leaf, kp |-> CHOOSE i \in Unused(s) : TRUE]>>, FALSE)
+
 SimCommit ==
+    \/ "apps" \in Features /\ LateBias > 3 /\ SimChurn
     \/ \E p \in OneMem : \E bv \in {PickByVal(grp[p])} :
             \E dt \in {RandomElement({b \in BOOLEAN : Z = 0 /\ (b => ("detached" \in Features /\ RandomElement(1..(3 + Z)) = 1))})} : Commit(p, bv, dt)
     \/ RandomElement(1..(5 + Z)) = 1 /\ \E p \in Mem : ClearPending(p)
@@ -135,12 +156,6 @@ SimCommit ==
 
 \* application traffic: bursts, deliveries biased to what the receiver can still read, the newest message
 \* first (reordering), and re-delivery of messages that were already accepted (replay)
-\* q holds the secrets of the epoch app a was sent in: its current epoch, or a prior epoch it still has a record of
-Readable(q, a) ==
-    \/ apps[a].ks = grp[q].ks
-    \/ \E i \in 1..Len(repo[q].ins) : repo[q].ins[i].ks = apps[a].ks
-    \/ \E i \in 1..Len(repo[q].upd) : repo[q].upd[i].ks = apps[a].ks
-    \/ \E i \in 1..Len(store[q].epochs) : store[q].epochs[i].ks = apps[a].ks
 Accepted == {i \in 1..Len(hist) : hist[i].a = "DeliverApp" /\ hist[i].res = "ok"}
 LateAccepted == {i \in Accepted : HasGroup(hist[i].p) /\ apps[hist[i].args.app].epoch < grp[hist[i].p].epoch}
 SimAppRegular ==
@@ -161,6 +176,14 @@ SimAppLate ==
     \/ \E q \in Mem : \E a \in {a \in 1..Len(apps) : apps[a].ks # grp[q].ks /\ Readable(q, a)} :
             \E gen \in {apps[a].lo, apps[a].hi} : DeliverApp(q, a, gen)
     \/ \E i \in {i \in LateAccepted : Cardinality({j \in LateAccepted : j > i}) < 3} : DeliverApp(hist[i].p, hist[i].args.app, hist[i].args.gen)
+    \* after a late message, one of an older epoch the receiver can still read (descending order of epochs), and a
+    \* write while two or more stored prior epochs have been touched
+    \/ \E i \in {i \in LateAccepted : Cardinality({j \in LateAccepted : j > i}) < 2} :
+            \E a \in {a \in 1..Len(apps) : Readable(hist[i].p, a) /\ apps[a].epoch < apps[hist[i].args.app].epoch} :
+                \* a generation this receiver has not accepted yet (so that the stored record really changes)
+                \E gen \in {g \in apps[a].lo..apps[a].hi : ~\E j \in Accepted : hist[j].p = hist[i].p /\ hist[j].args.app = a /\ hist[j].args.gen = g} :
+                    DeliverApp(hist[i].p, a, gen)
+    \/ "storage" \in Features /\ \E p \in Mem : Len(repo[p].upd) >= 2 /\ Write(p)
 SimApp == IF RandomElement(1..(10 + Z)) <= LateBias /\ ENABLED SimAppLate THEN SimAppLate ELSE SimAppRegular
 
 SimStore ==
